@@ -75,6 +75,10 @@ func (s *objectStore) Save(cluster string, condition *proxyv1alpha1.RateLimitCon
 }
 
 func (s *objectStore) Delete(cluster, name string) error {
+	// do not interleave with a running flush, which would re-create the deleted condition from its snapshot
+	s.Lock()
+	defer s.Unlock()
+
 	err := retry.RetryOnConflict(retry.DefaultRetry, func() (err error) {
 		err = s.gatewayClient.ProxyV1alpha1().RateLimitConditions().Delete(context.Background(), name, v1.DeleteOptions{})
 		if err == nil || errors.IsNotFound(err) {
@@ -89,6 +93,10 @@ func (s *objectStore) Delete(cluster, name string) error {
 }
 
 func (s *objectStore) DeleteUpstream(cluster string) error {
+	// do not interleave with a running flush, which would re-create the deleted conditions from its snapshot
+	s.Lock()
+	defer s.Unlock()
+
 	itemsToDelete := s.localStore.ListUpstream(cluster)
 	for _, item := range itemsToDelete {
 		err := retry.RetryOnConflict(retry.DefaultRetry, func() (err error) {
